@@ -2,7 +2,8 @@
 
 CONSUMED by Rep/Repair.v : repair_guards (ordered guard codes of repair_value), repair_dispatch (isinstance order of
 the constraint loop), rule ids, tier strings, the NUMBER type name, the characters tested by the int/float branch, the ORDERED rejecting guards of the float branch
-(repair_float_guards: 1 not finite, 2 zero with a non-zero mantissa) and the mantissa test (split char, lower(), digit set).
+(repair_float_guards: 1 not finite, 2 zero with a non-zero mantissa) and the mantissa test (split char, lower(), the per-character
+digit test: 2 = `ch.isdecimal() and int(ch) != 0` (0b7941a), 1 = membership in a literal ASCII table (80b6126)).
 PINNED (Rep/Pins_Repair.v) : normalised source (ast.unparse, docstrings removed) of _attempt_enum_casefold,
 _attempt_type_coercion, _repair_ast_node, _apply_schema_repairs, repair, RepairLog.add, RepairEntry.to_dict and of the
 three call sites (validate.execute `if fix:`, write.execute lenient repair, cli validate `--fix`).
@@ -63,6 +64,8 @@ def _tier_values(src):
 
 FLOAT_GUARD_NONFINITE = 1
 FLOAT_GUARD_UNDERFLOW = 2
+DIGIT_TEST_ASCII_TABLE = 1
+DIGIT_TEST_DECIMAL_NONZERO = 2
 REJECT = "(value, False)"
 
 
@@ -71,7 +74,11 @@ def _float_guards(stmts):
     Understood, anything else raises:
       `if not math.isfinite(coerced): return (value, False)`                                    -> code 1
       `mantissa = value_stripped[.lower()].split('<c>')[0]`                                      -> binding (once, before its use)
-      `if coerced == 0 and any((ch in '<digits>' for ch in mantissa)): return (value, False)`    -> code 2
+      `if coerced == 0 and any((<digit test> for ch in mantissa)): return (value, False)`       -> code 2, where <digit test> is
+           `ch.isdecimal() and int(ch) != 0`   -> digit_test 2 (any Unicode decimal digit whose value is not 0; current source)
+           `ch in '<digits>'`                  -> digit_test 1 + the literal table (the ASCII-only test of 80b6126; recognised so
+                                                  that a reverted tree still translates -- the generated digit_test differs and the
+                                                  pin repair_mantissa_digit_test = 2 breaks)
     """
     guards, mant = [], None
     for st in stmts:
@@ -110,10 +117,21 @@ def _float_guards(stmts):
              and ast.unparse(g.generators[0].target) == "ch" and ast.unparse(g.generators[0].iter) == "mantissa",
              f"type coercion: underflow guard does not scan the mantissa: `{t}`")
         e = g.elt
-        need(isinstance(e, ast.Compare) and len(e.ops) == 1 and isinstance(e.ops[0], ast.In) and ast.unparse(e.left) == "ch"
-             and isinstance(e.comparators[0], ast.Constant) and isinstance(e.comparators[0].value, str)
-             and e.comparators[0].value, f"type coercion: underflow guard digit test not understood: `{t}`")
-        mant["digits"] = e.comparators[0].value
+        if ast.unparse(e) == "ch.isdecimal() and int(ch) != 0":
+            need(isinstance(e, ast.BoolOp) and isinstance(e.op, ast.And) and len(e.values) == 2
+                 and isinstance(e.values[0], ast.Call) and not e.values[0].args and not e.values[0].keywords
+                 and isinstance(e.values[1], ast.Compare) and isinstance(e.values[1].ops[0], ast.NotEq)
+                 and isinstance(e.values[1].comparators[0], ast.Constant) and e.values[1].comparators[0].value == 0
+                 and type(e.values[1].comparators[0].value) is int,
+                 f"type coercion: underflow guard digit test not understood: `{t}`")
+            mant["digit_test"] = DIGIT_TEST_DECIMAL_NONZERO
+            mant["digits"] = ""
+        else:
+            need(isinstance(e, ast.Compare) and len(e.ops) == 1 and isinstance(e.ops[0], ast.In) and ast.unparse(e.left) == "ch"
+                 and isinstance(e.comparators[0], ast.Constant) and isinstance(e.comparators[0].value, str)
+                 and e.comparators[0].value, f"type coercion: underflow guard digit test not understood: `{t}`")
+            mant["digit_test"] = DIGIT_TEST_ASCII_TABLE
+            mant["digits"] = e.comparators[0].value
         mant["test"] = t
         guards.append(FLOAT_GUARD_UNDERFLOW)
     need(len(set(guards)) == len(guards), "type coercion: a float guard occurs twice")
@@ -257,6 +275,8 @@ def generate(src):
     out.append(f"Definition repair_float_guards : list N := {coq_list([str(g) for g in float_guards], 'N')}.\n")
     out.append(f"Definition repair_mantissa_split : N := {mant['split'] if mant else 0}.\n")
     out.append(f"Definition repair_mantissa_lower : N := {mant['lower'] if mant else 0}.\n")
+    out.append("(* per-character test of the mantissa: 1 = `ch in <repair_mantissa_digits>`, 2 = `ch.isdecimal() and int(ch) != 0` *)\n")
+    out.append(f"Definition repair_mantissa_digit_test : N := {mant['digit_test'] if mant else 0}.\n")
     out.append(f"Definition repair_mantissa_digits : list N := {coq_str(mant['digits'] if mant else '')}.\n")
     out.append(f"Definition repair_mantissa_expr : list N := {coq_str(mant['expr'] if mant else '')}.\n")
     out.append(f"Definition repair_underflow_guard_test : list N := {coq_str(mant['test'] if mant else '')}.\n")
